@@ -19,6 +19,16 @@ func init() { Registry["DEBUG"] = Debug }
 
 func Debug(c *mc.Ctx) {
 	c.NoWrite = true
+	if d := os.Getenv("DEBUG_C08CASE"); d != "" { // run the C08 cases whose name contains the string, in this process
+		for _, k := range c08Cases() {
+			if strings.Contains(k.name, d) {
+				fmt.Println("case", k.name, k.pos)
+				c08Run(c, k)
+			}
+		}
+		fix.Cleanup()
+		return
+	}
 	if d := os.Getenv("DEBUG_C16C"); d != "" { // DEBUG_C16C=<depth>: only the concurrent C16 exploration
 		depth := 5
 		fmt.Sscanf(d, "%d", &depth)
